@@ -201,6 +201,320 @@ def _plan(ctx):
     fresh = 'self._uuid = uuid.uuid4()' in init or any("'_job_id'" in x and "'_uuid'" in x for x in ser)
     ctx.add(core.decided('C38/VariantDatasetCombiner/intermediate-paths-of-a-resumed-run-are-fresh', fresh, 'uuid4 per object, or job id and uuid saved with the plan', kind='scan'))
     ctx.under_contract(COMB, 'VariantDatasetCombiner.__init__ (intermediate path prefix)')
+    props = _Props(ctx, tree)
+    _filing(ctx, tree, props)
+    _resume(ctx, tree, _Props(ctx, tree))
+
+
+
+# ---- wave 4: where the merged datasets go, who may write the final output, the plan's parameters after a resume ---------------
+import ast as _ast
+
+
+def _class_properties(tree, cls):
+    """the @property getters / @<name>.setter functions of a class, read from the real class body"""
+    out = {}
+    cnode = [n for n in tree.body if isinstance(n, _ast.ClassDef) and n.name == cls][0]
+    for n in cnode.body:
+        if not isinstance(n, _ast.FunctionDef):
+            continue
+        for d in n.decorator_list:
+            t = _ast.unparse(d)
+            if t == 'property':
+                out.setdefault(n.name, {})['get'] = n
+            elif t == n.name + '.setter':
+                out.setdefault(n.name, {})['set'] = n
+    return out
+
+
+class _Props:
+    """call models `property:<name>` / `property-set:<name>` (vc/pyvc.py getattr / assign on records) that EXECUTE the real getter /
+    setter body of VariantDatasetCombiner on the record; every outcome of the body comes back as one alternative of a path split"""
+
+    def __init__(self, ctx, tree, cls='VariantDatasetCombiner', skip=()):
+        self.ctx, self.cls, self.seq = ctx, cls, 0
+        self.props = _class_properties(tree, cls)
+        self.consts = {}
+        cnode = [n for n in tree.body if isinstance(n, _ast.ClassDef) and n.name == cls][0]
+        kv = {}
+        for n in cnode.body:
+            if isinstance(n, _ast.Assign) and len(n.targets) == 1 and isinstance(n.targets[0], _ast.Name) and isinstance(n.value, _ast.Constant):
+                kv[n.targets[0].id] = n.value.value
+        self.consts[cls] = pyvc.SRecord('classobj:' + cls, kv)
+        self.skip = set(skip)
+
+    def models(self, base_calls):
+        calls = dict(base_calls)
+        for name, d in self.props.items():
+            if name in self.skip:
+                continue
+            if 'get' in d:
+                calls['property:' + name] = (lambda fn, nm: lambda eng, st, args, kw, node: self._run(eng, st, fn, nm, args[0], {}, node))(d['get'], name)
+            if 'set' in d:
+                calls['property-set:' + name] = (lambda fn, nm: lambda eng, st, args, kw, node: self._run(eng, st, fn, nm, args[0], {fn.args.args[1].arg: args[1]}, node))(d['set'], name)
+        self.calls = calls
+        return calls
+
+    def _run(self, eng, st, fn, name, rec, params, node):
+        if node is not None and id(node) in st.decided:
+            kind, payload = st.take_decided(node)
+            if kind == 'raise':
+                raise pyvc.PyRaise(payload)
+            return payload
+        self.seq += 1
+        pc = list(st.pc)
+
+        def setup(e2, s2):
+            s2.env['self'] = rec.clone()
+            for k, v in params.items():
+                s2.env[k] = v
+            for c in pc:
+                s2.assume(c)
+
+        c = Contract(path=COMB, qualname='%s.%s' % (self.cls, name), label='%s.%s[%s]#%d' % (self.cls, name, 'setter' if params else 'getter', self.seq), fragment=('re:.', len(fn.body)),
+                     setup=setup, calls=self.calls, consts=dict(eng.c.consts, **self.consts), raises={'*': True}, float_as_real=True, strings=eng.c.strings, types=dict(eng.c.types))
+        sub = pyvc.Engine(self.ctx, c)
+        sub.fn = fn  # the def carrying the decorator (getter and setter share a name)
+        sub.loop_ordinals = {id(n): k for k, n in enumerate(sub._loops_preorder(fn))}
+        outs = []
+        sub.at_return = lambda s2, res: outs.append(('value', res, s2))
+        sub.at_raise = lambda s2, exc: outs.append(('raise', exc, s2))
+        sub.run()
+        self.ctx.under_contract(COMB, '%s.%s (%s)' % (self.cls, name, 'setter' if params else 'getter'))
+        base = len(pc)
+
+        def effect(sub_state):
+            def apply(caller):
+                target = eng.ev(node.value, caller) if node is not None else rec
+                target.fields.update(sub_state.env['self'].fields)
+            return apply
+
+        alts = []
+        for i, (kind, payload, s2) in enumerate(outs):
+            extra = list(s2.pc[base:])
+            alts.append(('%s-%d' % (name, i), z3.And(*extra) if extra else None, kind, payload, effect(s2)))
+        if len(alts) == 1 and alts[0][1] is None:
+            rec.fields.update(outs[0][2].env['self'].fields)
+            if alts[0][2] == 'raise':
+                raise pyvc.PyRaise(alts[0][3])
+            return alts[0][3]
+        if node is None:
+            raise core.Undecided('property %s splits the path where no statement can be re-executed' % name)
+        raise pyvc.Fork(node, alts)
+
+
+
+def _tail_anchor(fn, what):
+    """header text (as a regex anchor) of the first top-level statement of `fn` that contains a call of self.<what>"""
+    import re
+
+    for i, stmt in enumerate(fn.body):
+        for n in _ast.walk(stmt):
+            if isinstance(n, _ast.Call) and pyvc._dotted(n.func) == 'self.' + what:
+                return i, 're:^' + re.escape(pyvc._header_text(stmt)) + '$'
+    return None, None
+
+
+def _engine_call(eng, st, args, kw, node):
+    """a call into the query engine / file system / logger: no effect on the combiner's plan (assumption), opaque result"""
+    return z3.Const(pyvc.fresh_name('engine_result'), pyvc.U)
+
+
+def _write_final(eng, st, args, kw, node):
+    rec = st.env['self']
+    st.env['FINAL'] = st.env['FINAL'] + 1
+    st.env['FINAL_G'] = rec.fields['_gvcfs'].len  # what is still pending at the moment of the final write
+    st.env['FINAL_V'] = rec.fields['_vdses'].size
+    st.env['FINAL_ARG'] = args[0]
+    return None
+
+
+def _dd_read(eng, st, args, kw, node):
+    """self._vdses is a collections.defaultdict(list) (checked on __init__): reading a missing bin yields (and stores) an empty list"""
+    m, k = args
+    kz = pyvc.to_z3(k, m.kt)
+    l = pyvc.from_z3(z3.Select(m.val, kz), m.vt)
+    v = pyvc.SList(z3.If(z3.Select(m.has, kz), l.len, 0), l.arr, l.et)
+    if not getattr(eng, 'in_spec', False):
+        eng.assign(node.value, eng.store(m, k, v, st, node), st)
+    return v
+
+
+def _metadata(eng, st, args, kw, node):
+    p = kw['path'] if 'path' in kw else args[0]
+    n = kw['n_samples'] if 'n_samples' in kw else args[1]
+    return eng.uf('VDSMetadata', ['str', 'int'], 'U')(pyvc.to_z3(p, 'str'), pyvc.to_z3(n, 'int'))
+
+
+def _log(eng, st, args, kw, node):
+    return eng.uf('math_log', ['int', 'int'], 'real')(eng.num(args[0]), eng.num(args[1]))
+
+
+def _floor(eng, st, args, kw, node):
+    x = eng.num(args[0])
+    return x if z3.is_int(x) else z3.ToInt(x)
+
+
+def _str_model(name, n):
+    def model(eng, st, args, kw, node):
+        return eng.uf(name, ['str'] * 1 + ['int'] * (n - 1), 'str')(*[pyvc.to_z3(a, 'str' if i == 0 else 'int') for i, a in enumerate(args[:n])])
+    return model
+
+
+FILING_TYPES = {'.n_samples': 'int', '.path': 'str', 'merge_metadata': 'List[U]', 'paths': 'List[str]'}
+META_AXIOM = "forall('str', 'int', lambda p_, n_: VDSMetadata(p_, n_).n_samples == n_ and VDSMetadata(p_, n_).path == p_)"
+KEPT = "forall(lambda b: implies(b in OLD, b in self._vdses and len(OLD[b]) <= len(self._vdses[b]) and forall(lambda j: implies(0 <= j < len(OLD[b]), self._vdses[b][j] == OLD[b][j]))))"
+SAME_BINS = "forall(lambda b: (b in self._vdses) == (b in OLD) and implies(b in OLD, self._vdses[b] == OLD[b]))"
+FINAL_ONLY_AT_THE_END = ('the-final-output-is-written-only-when-no-gvcf-and-no-dataset-is-pending', 'implies(FINAL >= 1, FINAL_G == 0 and FINAL_V == 0)')
+
+
+def _filing_setup(extra=None):
+    def setup(eng, st):
+        f = {'_gvcfs': st.env['G'], '_vdses': st.env['BINS'], '_branch_factor': st.env['BF'], '_job_id': st.env['JOB'], '_output_path': st.env['OUT'], '_temp_path': st.env['TMP'], '_uuid': st.env['UUID'],
+             '_target_records': st.env['TR']}
+        st.env['self'] = pyvc.SRecord('VariantDatasetCombiner', f)
+        st.env['OLD'] = st.env['BINS']
+        st.env['FINAL'] = z3.IntVal(0)
+        st.env['FINAL_G'] = z3.IntVal(-1)
+        st.env['FINAL_V'] = z3.IntVal(-1)
+        st.env['FINAL_ARG'] = z3.Const('no_final_arg', pyvc.U)
+        if extra:
+            extra(eng, st)
+    return setup
+
+
+FILING_INPUTS = {'G': 'List[U]', 'BINS': 'Map[int, List[U]]', 'BF': 'int', 'JOB': 'int', 'OUT': 'str', 'TMP': 'str', 'UUID': 'U', 'TR': 'int'}
+
+
+def _filing(ctx, tree, props):
+    base_calls = {
+        'self._write_final': _write_final, 'subscript:self._vdses': _dd_read, 'VDSMetadata': _metadata, 'log': _log, 'floor': _floor,
+        'self._temp_out_path': lambda eng, st, args, kw, node: eng.uf('temp_out_path', ['str'], 'str')(pyvc.to_z3(args[0], 'str')),
+        'os.path.join': lambda eng, st, args, kw, node: eng.uf('path_join%d' % len(args), ['str'] * len(args), 'str')(*[pyvc.to_z3(a, 'str') for a in args]),
+        '.rjust': lambda eng, st, args, kw, node: z3.String(pyvc.fresh_name('rjust')),
+        'hl.vds.write_variant_datasets': _engine_call, '.write': _engine_call, 'info': _engine_call,
+    }
+    calls = props.models(base_calls)
+    cs = []
+    # (4) _step_gvcfs, from the statement that may write the final output to the end: the datasets imported in this batch either ARE
+    #     the result (one dataset, nothing else pending) or are all filed as pending datasets
+    g = pyvc.find_function(tree, 'VariantDatasetCombiner._step_gvcfs')
+    gi, ganchor = _tail_anchor(g, '_write_final')
+    ctx.add(core.decided('C38/VariantDatasetCombiner._step_gvcfs/the-final-output-is-written-from-one-top-level-statement-after-the-import-loop',
+                         gi is not None and any(isinstance(x, _ast.For) for x in g.body[:gi]) and sum(1 for n in _ast.walk(g) if isinstance(n, _ast.Call) and pyvc._dotted(n.func) == 'self._write_final') == 1,
+                         'index %r' % gi, kind='scan'))
+    if gi is not None:
+        # the guard alone, with quantifier-free hypotheses (a failing guard then has a counter-model the solver can produce)
+        cs.append(Contract(
+            path=COMB, qualname='VariantDatasetCombiner._step_gvcfs', label='VariantDatasetCombiner._step_gvcfs[final-write guard]', fragment=(ganchor, 1),
+            types=dict(FILING_TYPES, merge_vds='List[U]'), extra_inputs=dict(FILING_INPUTS, MV='List[U]'), strings=True, float_as_real=True,
+            setup=_filing_setup(lambda eng, st: st.env.update({'merge_vds': st.env['MV']})), requires=['BF >= 2', 'len(MV) >= 1'], calls=calls,
+            ensures=[FINAL_ONLY_AT_THE_END, ('the-final-output-is-the-single-dataset-of-this-batch-written-once', 'implies(FINAL >= 1, FINAL == 1 and len(merge_vds) == 1 and FINAL_ARG == merge_vds[0])'),
+                     ('pending-inputs-untouched', 'self._gvcfs == G and len(self._vdses) == len(OLD)')],
+            raises={}, canaries=[('never-final', 'FINAL == 0'), ('always-final', 'FINAL == 1')],
+        ))
+        cs.append(Contract(
+            path=COMB, qualname='VariantDatasetCombiner._step_gvcfs', label='VariantDatasetCombiner._step_gvcfs[filing]', fragment=(ganchor, len(g.body) - gi),
+            types=dict(FILING_TYPES, merge_vds='List[U]', merge_n_samples='List[int]'), extra_inputs=dict(FILING_INPUTS, MV='List[U]', MN='List[int]', MM0='List[U]'), strings=True, float_as_real=True,
+            setup=_filing_setup(lambda eng, st: st.env.update({'merge_vds': st.env['MV'], 'merge_n_samples': st.env['MN'], 'merge_metadata': st.env['MM0']})),  # MM0: value of a name the final-write path never binds
+            requires=['BF >= 2', 'len(MV) == len(MN)', 'len(MV) >= 1', "forall(lambda b: implies(b in BINS, len(BINS[b]) >= 1))"], axioms=[META_AXIOM], calls=calls,
+            loops={'re:^for md in ': LoopSpec(index='k_', invariants=[('pending-datasets-kept-in-order', KEPT), ('no-final-write', 'FINAL == 0')])},
+            ensures=[
+                ('a-final-write-files-nothing', 'implies(FINAL >= 1, ' + SAME_BINS + ')'),
+                ('pending-gvcfs-untouched', 'self._gvcfs == G'),
+                ('pending-datasets-are-kept-in-order', KEPT),
+                ('one-record-per-imported-dataset-with-its-sample-count', 'implies(FINAL == 0, len(merge_metadata) == len(MV) and forall(lambda j: implies(0 <= j < len(MN), merge_metadata[j].n_samples == MN[j])))'),
+            ],
+            raises={}, canaries=[('never-final', 'FINAL == 0'), ('always-final', 'FINAL == 1')],
+        ))
+        # (5) one filing iteration (the body of the last loop): the record goes to the end of exactly one bin >= 1
+        cs.append(_file_one('VariantDatasetCombiner._step_gvcfs', 'VariantDatasetCombiner._step_gvcfs[file one dataset]', 'md', calls))
+    # (6) _step_vdses, from the statement that may write the final output to the end: final only when nothing is pending; otherwise
+    #     the merged dataset is appended to a bin ABOVE the bin the merge started from, with the merged sample count
+    v = pyvc.find_function(tree, 'VariantDatasetCombiner._step_vdses')
+    vi, vanchor = _tail_anchor(v, '_write_final')
+    ctx.add(core.decided('C38/VariantDatasetCombiner._step_vdses/the-final-output-is-written-from-one-top-level-statement',
+                         vi is not None and sum(1 for n in _ast.walk(v) if isinstance(n, _ast.Call) and pyvc._dotted(n.func) == 'self._write_final') == 1, 'index %r' % vi, kind='scan'))
+    if vi is not None:
+        cs.append(Contract(
+            path=COMB, qualname='VariantDatasetCombiner._step_vdses', label='VariantDatasetCombiner._step_vdses[final-write guard]', fragment=(vanchor, 1),
+            types=dict(FILING_TYPES), extra_inputs=dict(FILING_INPUTS, CMB='U'), strings=True, float_as_real=True,
+            setup=_filing_setup(lambda eng, st: st.env.update({'combined': st.env['CMB']})), requires=['BF >= 2'], calls=calls,
+            ensures=[FINAL_ONLY_AT_THE_END, ('the-final-output-is-the-merged-dataset-written-once', 'implies(FINAL >= 1, FINAL == 1 and FINAL_ARG == CMB)'),
+                     ('pending-inputs-untouched', 'self._gvcfs == G and len(self._vdses) == len(OLD)')],
+            raises={}, canaries=[('never-final', 'FINAL == 0'), ('always-final', 'FINAL == 1')],
+        ))
+        cs.append(Contract(
+            path=COMB, qualname='VariantDatasetCombiner._step_vdses', label='VariantDatasetCombiner._step_vdses[filing]', fragment=(vanchor, len(v.body) - vi),
+            types=dict(FILING_TYPES), extra_inputs=dict(FILING_INPUTS, CMB='U', TP='str', NS='int', OB='int', NB0='int'), strings=True, float_as_real=True,
+            setup=_filing_setup(lambda eng, st: st.env.update({'combined': st.env['CMB'], 'temp_path': st.env['TP'], 'new_n_samples': st.env['NS'], 'original_bin': st.env['OB'], 'new_bin': st.env['NB0']})),
+            requires=['BF >= 2', 'NS >= 1', "forall(lambda b: implies(b in BINS, len(BINS[b]) >= 1))"], axioms=[META_AXIOM], calls=calls,
+            ghost_init={},
+            ensures=[
+                ('a-final-write-files-nothing', 'implies(FINAL >= 1, ' + SAME_BINS + ')'),
+                ('pending-gvcfs-untouched', 'self._gvcfs == G'),
+                ('otherwise-the-merged-dataset-is-filed-in-a-later-bin', 'implies(FINAL == 0, new_bin > OB and new_bin in self._vdses)'),
+                ('at-the-end-of-that-bin-with-the-merged-sample-count', 'implies(FINAL == 0, len(self._vdses[new_bin]) == ite(new_bin in OLD, len(OLD[new_bin]), 0) + 1 and self._vdses[new_bin][len(self._vdses[new_bin]) - 1].n_samples == NS)'),
+                ('pending-datasets-are-kept-in-order', KEPT),
+                ('other-bins-untouched', 'implies(FINAL == 0, forall(lambda b: implies(b != new_bin, (b in self._vdses) == (b in OLD) and implies(b in OLD, self._vdses[b] == OLD[b]))))'),
+            ],
+            raises={}, canaries=[('never-final', 'FINAL == 0'), ('always-final', 'FINAL == 1')],
+        ))
+    # (7) __init__ files the input datasets with the same statement
+    cs.append(_file_one('VariantDatasetCombiner.__init__', 'VariantDatasetCombiner.__init__[file one input dataset]', 'vds', calls))
+    for c in cs:
+        eng = pyvc.Engine(ctx, c)
+        eng.run()
+        ctx.add(core.decided('C38/%s/no-call-outside-the-contract' % eng.label, not eng.unmodelled, repr(eng.unmodelled), kind='frame'))
+
+
+def _file_one(qualname, label, var, calls):
+    K = 'max(1, floor(log(%s.n_samples, BF)))' % var
+    return Contract(
+        path=COMB, qualname=qualname, label=label, fragment=('re:^self\\._vdses\\[.*\\]\\.append\\(%s\\)$' % var, 1),
+        types=dict(FILING_TYPES), extra_inputs=dict(FILING_INPUTS, MD='U'), strings=True, float_as_real=True,
+        setup=_filing_setup(lambda eng, st: st.env.update({var: st.env['MD']})), requires=['BF >= 2'], calls=calls,
+        ensures=[
+            ('appended-to-the-end-of-its-bin', 'K_ in self._vdses and implies(K_ in OLD, self._vdses[K_] == OLD[K_] + [MD]) and implies(not (K_ in OLD), self._vdses[K_] == [MD])'.replace('K_', K)),
+            ('bins-start-at-one', '%s >= 1' % K),
+            ('other-bins-untouched', 'forall(lambda b: implies(b != %s, (b in self._vdses) == (b in OLD) and implies(b in OLD, self._vdses[b] == OLD[b])))' % K),
+            ('nothing-else-changes', 'self._gvcfs == G and FINAL == 0'),
+        ],
+        raises={}, canaries=[('always-a-new-bin', 'not (%s in OLD)' % K)],
+    )
+
+
+
+def _resume(ctx, tree, props):
+    """new_combiner.maybe_load_from_saved_path: a plan found at save_path is resumed with the caller's branch factor / batch size.
+    The resumed object must satisfy what __init__ guarantees for a new one (batch size >= 1, branch factor >= 2: the selection
+    contracts above need both to take at least one input per step) and must still hold the saved pending inputs."""
+    def load_combiner(eng, st, args, kw, node):
+        rec = pyvc.SRecord('VariantDatasetCombiner', {
+            '_gvcfs': st.env['LG'], '_vdses': st.env['LB'], '_gvcf_batch_size': st.env['LBS'], '_branch_factor': st.env['LBF'], '_target_records': st.env['LTR'],
+            '_gvcf_import_intervals': st.env['LI'], '_gvcf_sample_names': st.env['LN'], '_save_path': args[0]})
+        raise pyvc.Fork(node, [('plan-loaded', None, 'value', rec, None)] + [('load-raises-' + x, None, 'raise', pyvc.SExc(x), None) for x in ('ValueError', 'TypeError', 'OSError', 'KeyError', 'FatalError')])
+
+    calls = props.models({
+        'hl.current_backend': lambda eng, st, args, kw, node: pyvc.SRecord('Backend', {'fs': z3.Const('the_fs', pyvc.U)}),
+        '.exists': lambda eng, st, args, kw, node: z3.Bool(pyvc.fresh_name('exists')),
+        'load_combiner': load_combiner, 'warning': lambda eng, st, args, kw, node: None,
+    })
+    c = Contract(
+        path=COMB, qualname='new_combiner.maybe_load_from_saved_path', types={'save_path': 'str'}, strings=True, float_as_real=True,
+        extra_inputs={'force': 'bool', 'branch_factor': 'int', 'target_records': 'int', 'gvcf_batch_size': 'int', 'LG': 'List[U]', 'LB': 'Map[int, List[U]]', 'LBS': 'int', 'LBF': 'int', 'LTR': 'int',
+                      'LI': 'List[U]', 'LN': 'List[U]'},
+        requires=['branch_factor >= 2', 'gvcf_batch_size >= 1', 'LBS >= 1', 'LBF >= 2'], calls=calls,
+        ensures=[
+            ('a-resumed-plan-takes-at-least-one-input-per-step', 'True if result is None else (result._gvcf_batch_size >= 1 and result._branch_factor >= 2)'),
+            ('the-pending-inputs-of-the-saved-plan-are-taken-over-unchanged', 'True if result is None else (result._gvcfs == LG and len(result._vdses) == len(LB) and forall(lambda b: (b in result._vdses) == (b in LB) and implies(b in LB, result._vdses[b] == LB[b])) and result._gvcf_sample_names == LN and result._gvcf_import_intervals == LI)'),
+            ('force-starts-afresh', 'implies(force, result is None)'),
+        ],
+        raises={'FatalError': True}, canaries=[('never-resumes', 'result is None')],
+    )
+    eng = pyvc.Engine(ctx, c)
+    eng.run()
+    ctx.add(core.decided('C38/%s/no-call-outside-the-contract' % eng.label, not eng.unmodelled, repr(eng.unmodelled), kind='frame'))
 
 
 def native_witness(ctx):
